@@ -37,6 +37,11 @@ def op (w : W) (ws : List String) : String × W :=
     match a.toNat?, cap.toNat? with
     | some a, some cap => w.spawn a (optName name) cap none (mkScript true true true true) true
     | _, _ => ("bad-op", w)
+  | ["spawnsup", a, name, cap, "keep"] =>
+    match a.toNat?, cap.toNat? with
+    | some a, some cap => w.spawn a (optName name) cap none (mkScript true true true true) true true
+    | _, _ => ("bad-op", w)
+  | ["drop", a] => match a.toNat? with | some a => w.dropMailbox a | none => ("bad-op", w)
   | ["await", a] => match a.toNat? with | some a => w.await a | none => ("bad-op", w)
   | ["dropfut", a] => match a.toNat? with | some a => w.dropFut a | none => ("bad-op", w)
   | ["send", a, id, k] =>
@@ -84,6 +89,8 @@ def op (w : W) (ws : List String) : String × W :=
 def step (w : W) (line : String) : W × String :=
   if line.startsWith "#case" then ({}, line.trimAscii.toString) else
   let (out, w') := op w (words line)
+  -- channels whose last sender just went away are freed
+  let w' := w'.reap
   if w'.panicked then (w', "panic") else (w', out)
 
 end C19
